@@ -28,7 +28,8 @@ OrdCatalog == <<
   << << O(<<T("interfaces")>>, <<>>), O(<<T("interface"), ST>>, << O(<<T("shutdown")>>, <<>>), O(<<T("mtu")>>, <<>>) >>), O(<<T("a"), ST>>, <<>>) >> >>,
   << << O(<<T("a"), ST>>, <<>>), O(<<T("rv"), ST>>, <<>>) >> >>,
   << << O(<<T("blk"), ST>>, << O(<<T("y")>>, <<>>), O(<<T("x"), ST>>, <<>>) >>) >> >>,
-  << << O(<<T("rd"), ST>>, <<>>) >> >>
+  << << O(<<T("rd"), ST>>, <<>>) >> >>,
+  << << O(<<T("blk"), ST>>, <<>>), O(<<T("ip"), TT>>, <<>>) >> >>
 >>
 \* disjointness of sibling languages over the instance universe of the patching catalogue (domain assumption of C08)
 RECURSIVE AllInst(_)
